@@ -47,8 +47,11 @@ func (s *MemStorage) loc(loc string) map[string]string {
 func (s *MemStorage) Load(ctx *Context, loc string) ([]Pair, error) {
 	Log(INFO|STORAGE, ctx, "MemStorage.Load", "location", loc)
 	s.Lock()
-	acc := make([]Pair, 0, len(s.loc(loc)))
-	for k, v := range s.loc(loc) {
+	// Not 's.loc(loc)', which makes an entry for a location that we
+	// do not have: loading is not creating.
+	pairs := s.locToPairs[loc]
+	acc := make([]Pair, 0, len(pairs))
+	for k, v := range pairs {
 		acc = append(acc, Pair{[]byte(k), []byte(v)})
 	}
 	s.Unlock()
